@@ -61,8 +61,11 @@ impl Monitor for C13 {
                     q.cons.push(r.below(u.vsets.len() as u64) as u32);
                 }
             }
-            if cfg.nsoft > 0 && r.chance(1, 2) {
+            if (cfg.nsoft > 0 && r.chance(1, 2)) || r.chance(1, 6) {
                 q.soft.push(r.below(u.solvs.len() as u64) as u32);
+                if r.chance(1, 3) {
+                    q.soft.push(r.below(u.solvs.len() as u64) as u32);
+                }
             }
             problems.push(q);
         }
@@ -189,6 +192,25 @@ impl Monitor for C13 {
             }
             if let Outcome::Ok(sol) = &out {
                 super::c01::check_ok("reused-invalid:", &rf, p, sol, &sess, ctx, &what);
+                // soft requirements on a reused solver: "as correct as with a fresh solver" includes
+                // the inclusion rule of C14 (a compatible soft solvable is not dropped because of
+                // what earlier calls left in the cache)
+                if !p.soft.is_empty() {
+                    if let Some(uset) = super::c14::inclusion_precondition(&rf, p) {
+                        ctx.rep.count("soft-inclusion-checked-on-reused-solver");
+                        let missing: Vec<String> = p.soft.iter().filter(|x| !sol.contains(x)).map(|&x| u.solv_label(x)).collect();
+                        if !missing.is_empty() {
+                            // a fresh solver must include them; only then is the reused solver to blame
+                            let fresh_has = matches!(&fresh, Outcome::Ok(fs) if p.soft.iter().all(|x| fs.contains(x)));
+                            if fresh_has {
+                                ctx.violation(
+                                    "reused solver drops a compatible soft requirement that a fresh solver keeps",
+                                    format!("{what}: {:?} missing; compatible union {:?}", missing, uset.iter().map(|&s| u.solv_label(s)).collect::<Vec<_>>()),
+                                );
+                            }
+                        }
+                    }
+                }
             }
         }
         if interrupted_while_parked {
